@@ -551,21 +551,26 @@ def gpsd_setup_cases(res, prop, rng, n, PATHS, jtok=None, cases=None):
     class Stop(Exception):
         pass
     n_setup = 0
-    for _ in range(n_total):
+    PARTIAL = [b'$GPGGA,123519,4807.038', b'{"class":"TPV","device":"/dev/tt', b'\r\n$GPRMC,1*00\r\n$GPGSV,3,1', b'["x", 1']
+    for k_run in range(n_total):
+        # the first runs are a fixed corpus: a block that ends in the middle of a line, then a block with a usable device list
+        forced = k_run < 2 * len(PARTIAL)
         requested = rng.choice([None, '/dev/ttyACM1', '/dev/b', ''])
+        if forced:
+            requested = None
         lists = []
         chunks = []
         ctoks = []
         per_chunk = []
-        for _c in range(rng.randrange(1, 4)):
-            devs = rng.sample(PATHS, rng.randrange(0, 4))
+        for _c in range(1 + k_run % 2 if forced else rng.randrange(1, 4)):
+            devs = rng.sample(PATHS, rng.randrange(1, 4) if forced else rng.randrange(0, 4))
             lists.append(devs)
             line = json.dumps({'class': 'DEVICES', 'devices': [dict({'class': 'DEVICE', 'path': p_}, **rng.choice([{}, {'driver': 'NMEA0183'}, {'driver': None}, {'driver': 'u-blox'}])) for p_ in devs]}, ensure_ascii=rng.random() < 0.5).encode('utf-8')
             dv = {'class': 'DEVICES', 'devices': json.loads(line.decode('utf-8'))['devices']}
             pre, pre_tok = rng.choice([(b'', []), (b'{"class":"VERSION","release":"3.25"}\r\n', ['V']), (b'$GPRMC,1*00\r\n', ['X']), (b'\r\n', ['X'])])
-            if rng.random() < 0.25:
+            if (forced and _c == 0) or (not forced and rng.random() < 0.25):
                 # a recv() block of text that ends in the middle of a line (a cut NMEA sentence, a JSON fragment), then the next block
-                chunks.append(rng.choice([b'$GPGGA,123519,4807.038', b'{"class":"TPV","device":"/dev/tt', b'\r\n$GPRMC,1*00\r\n$GPGSV,3,1', b'["x", 1']))
+                chunks.append(PARTIAL[k_run // 2] if forced else rng.choice(PARTIAL))
                 ctoks.append(['X'])
                 per_chunk.append([])
             chunks.append(pre + line + b'\r\n')
